@@ -181,10 +181,14 @@ def project_d(lines):
                     evs.append({"a": "cancelled", "t": tnum(r["t"])})
                 else:
                     evs.append({"a": "sfinish", "t": tnum(r["t"]), "ok": r["how"] == "ok"})
-            elif ev == "h_finish":
-                evs.append({"a": "sfinish", "t": tnum(r["t"]), "ok": r["outcome"] == "ok"})
-            elif ev == "vbuild_done" and r["outcome"] == "cancelled":
-                evs.append({"a": "cancelled", "t": tnum(r["t"])})
+            elif ev == "vbuild_done":
+                # what build_target's select! OBSERVED: the script's exit, or the cancellation. (h_finish is only the driver's
+                # decision to let the virtual script end; in free-running mode a cancellation can still win the select!, and
+                # ScriptFinish of Engine.tla is the observation, not the exit.)
+                if r["outcome"] == "cancelled":
+                    evs.append({"a": "cancelled", "t": tnum(r["t"])})
+                else:
+                    evs.append({"a": "sfinish", "t": tnum(r["t"]), "ok": r["outcome"] == "ok"})
             elif ev == "incr_saved":
                 evs.append({"a": "record", "t": tnum(r["t"])})
             elif ev == "wake_build":
